@@ -26,6 +26,13 @@ impl Source {
             Source::Built(l) => indep::build::build(l).image,
         }
     }
+    /// the archive on a simulated disk (sparse when an independently built layout carries a hole)
+    pub fn store(&self) -> Shared {
+        match self {
+            Source::Built(l) if l.hole > 0 => indep::build::build(l).store(),
+            _ => shared_from(&self.image()),
+        }
+    }
 }
 
 /// what the independent parser says about every entry of a source archive
@@ -517,6 +524,11 @@ pub fn shrink_layout(l: &Layout) -> Vec<Layout> {
     if l.force_z64_end {
         let mut x = l.clone();
         x.force_z64_end = false;
+        out.push(x);
+    }
+    if l.hole > 0 {
+        let mut x = l.clone();
+        x.hole = 0;
         out.push(x);
     }
     if !l.comment.0.is_empty() {
